@@ -94,8 +94,12 @@ Force(a) == [sh |-> a.sh, v |-> SeqTab(LAMBDA i : a.v[i], 1, Prod(a.sh), <<>>)]
 ValOf(g, a, kk) == LET num == ((3 * a + 5 * g + 7 * kk) % 7) - 2
                        den == IF ArgPool[a].dt = "f" /\ (a + g + kk) % 2 = 0 THEN 2 ELSE 1
                    IN DOf(Norm(num, den))
-ArgVal(g, a) == [sh |-> ArgPool[a].sh, v |-> SeqTab(LAMBDA kk : ValOf(g, a, kk), 1, Prod(ArgPool[a].sh), <<>>)]
-Env(g) == SeqTab(LAMBDA a : ArgVal(g, a), 1, Len(ArgPool), <<>>)
+ArgValRaw(g, a) == [sh |-> ArgPool[a].sh, v |-> SeqTab(LAMBDA kk : ValOf(g, a, kk), 1, Prod(ArgPool[a].sh), <<>>)]
+EnvRaw(g) == SeqTab(LAMBDA a : ArgValRaw(g, a), 1, Len(ArgPool), <<>>)
+\* a constant-level tuple: TLC evaluates it once when it processes the definitions (the assignments are looked up, not recomputed)
+EnvTab == <<EnvRaw(1), EnvRaw(2), EnvRaw(3), EnvRaw(4)>>
+Env(g) == EnvTab[g]
+ArgVal(g, a) == EnvTab[g][a]
 GoodAsg == {1, 2, 3}
 
 \* wrong shapes offered at call time for an argument of shape sh (broadcastable ones first)
